@@ -21,17 +21,22 @@ theorem run_bind_ok {α β : Type} (ctx : Ctx) (c : Comp α) (f : α → Comp β
   rw [run_bind, h]; rfl
 
 /-- The context a sub-expression of `@map`, `@filter`, `@reduce`, `@for` is evaluated in:
-    `{0}` and `{1}` are the two bound values, every other index is empty, and every named key is
-    whatever the enclosing match says. -/
+    `{0}` and `{1}` are the two bound values, every larger index is empty, a negative index (not an
+    element index; used by `{time live}` to touch the context) and every named key is whatever the
+    enclosing match says. -/
 def subCtx (ctx : Ctx) (v0 v1 : Bytes) : Ctx :=
-  { getMatch := fun i => if i = 0 then v0 else if i = 1 then v1 else [],
+  { getMatch := fun i => if i < 0 then ctx.getMatch i else if i = 0 then v0 else if i = 1 then v1 else [],
     getKey := ctx.getKey }
 
 theorem withSub_run {α : Type} (ctx : Ctx) (v0 v1 : Bytes) (c : Comp α) :
     (c.withSub v0 v1).run ctx = c.run (subCtx ctx v0 v1) := by
   induction c with
   | ret a => rfl
-  | getMatch i k ih => simp only [Comp.withSub, Comp.run, ih, subCtx]
+  | getMatch i k ih =>
+    simp only [Comp.withSub]
+    split
+    · rename_i h; simp only [Comp.run, ih, subCtx, h, if_true]
+    · rename_i h; simp only [Comp.run, ih, subCtx, h, if_false]
   | getKey s k ih => simp only [Comp.withSub, Comp.run, ih, subCtx]
   | panic m => rfl
 
